@@ -885,8 +885,13 @@ def inf_cases(draw, tier):
                      ['/', V('x'), C(2)], ['*', C(0.5), ['i']]])
     expo = {'up': N, 'down': ['neg', N], 'both': ['f', 'abs', N]}[direction]
     g = ['^', base, expo]
+    # (the last two: every second term is of rounding size, ~6e-17, between terms that matter - a series that "has
+    # converged" by a term-size criterion long before the configured cut-off)
+    quarter = ['*', C(1.5707963267948966), N]
     factor = ctl.pick([None, None, ['f', 'cos', N], ['+', expo, C(1)], V('y'),
-                       ['/', C(1), ['+', ['^', N, C(2)], C(1)]], C(3)])
+                       ['/', C(1), ['+', ['^', N, C(2)], C(1)]], C(3), ['f', 'cos', quarter], ['f', 'sin', quarter]])
+    if factor is not None and factor[-1] is quarter:
+        eo = 0
     tree = g if factor is None else ['*', factor, g]
     mode = 'geom'
     if ctl.pick(range(6)) == 0:
